@@ -334,7 +334,10 @@ def check(pid, tier, seed, plan):
         states += r["states"]
         trans += r["transitions"]
         blocked = bool(r["block"])
-        fkey = KF[r.get("finding") or plan["finding"]]
+        # only a scenario that is DESIGNATED to exhibit a listed finding may be attributed to it;
+        # a schedule found anywhere else is a violation of its own
+        fname = r.get("finding")
+        fkey = KF[fname] if fname else "sync:%s" % re.sub(r"[^a-z0-9]+", "-", name.lower()).strip("-")
         if r["res"] == "unsat":
             run.ob(name, "pass", nonvacuous=True, note="unsat: no schedule of <= %d steps, %d threads%s" % (r["K"], r["threads"], " (listed finding's pattern excluded)" if blocked else ""), **common)
             continue
@@ -357,8 +360,8 @@ def check(pid, tier, seed, plan):
         if not ok:
             run.ob(name, "inconclusive", reason="solver schedule not reproduced natively: %s" % observed, **common)
             continue
-        key = fkey if not blocked else fkey + ":outside-listed-pattern"
-        if not blocked and run.is_known(fkey):
+        key = fkey if not (blocked and fname) else fkey + ":outside-listed-pattern"
+        if not blocked and fname and run.is_known(fkey):
             run.known_hit(fkey, run.known[(pid, fkey)] + " -- solver schedule (%d steps) replayed on the real engine: %s" % (len(sched), observed))
             run.ob(name, "known", nonvacuous=True, note="listed finding reproduced natively; the blocked twin decides the rest", **common)
         else:
